@@ -31,6 +31,7 @@ import (
 	sdk "github.com/cosmos/cosmos-sdk/types"
 	banktypes "github.com/cosmos/cosmos-sdk/x/bank/types"
 	distrtypes "github.com/cosmos/cosmos-sdk/x/distribution/types"
+	govv1 "github.com/cosmos/cosmos-sdk/x/gov/types/v1"
 	govv1beta1 "github.com/cosmos/cosmos-sdk/x/gov/types/v1beta1"
 	sdkvesting "github.com/cosmos/cosmos-sdk/x/auth/vesting/types"
 	stakingtypes "github.com/cosmos/cosmos-sdk/x/staking/types"
@@ -241,6 +242,49 @@ func chainTx(n *Node, contracts *[]common.Address, t M) ([]byte, error) {
 			return nil, err
 		}
 		return cosmos(500000, msg)
+	case "spray":
+		// first use deploys the sprayer; later uses call it: one transaction creates eight new
+		// accounts whose addresses share their first 16 bytes
+		if n.Sprayer == nil {
+			var rt []byte
+			for i := 1; i <= 8; i++ {
+				rt = append(rt, 0x60, 0, 0x60, 0, 0x60, 0, 0x60, 0, 0x60, 1, 0x73)
+				addr := make([]byte, 20)
+				addr[18], addr[19] = byte(0x10+int(num(t, "salt", 0))), byte(i)
+				rt = append(rt, addr...)
+				rt = append(rt, 0x5a, 0xf1, 0x50)
+			}
+			rt = append(rt, 0x00)
+			init := []byte{0x61, byte(len(rt) >> 8), byte(len(rt)), 0x80, 0x61, 0x00, 0x0d, 0x60, 0x00, 0x39, 0x60, 0x00, 0xf3}
+			nonce := n.App.EvmKeeper.GetNonce(n.Ctx(), ethAddr(from))
+			bz, _, err := n.EthTxFor(from, nil, big.NewInt(0), 600000, append(init, rt...))
+			if err == nil {
+				a := ethcrypto.CreateAddress(ethAddr(from), nonce)
+				n.Sprayer = &a
+			}
+			return bz, err
+		}
+		bz, _, err := n.EthTxFor(from, n.Sprayer, big.NewInt(8), 600000, nil)
+		return bz, err
+	case "gov_evm_params":
+		// a governance proposal that changes the EVM parameters; with fail=true a second message
+		// that cannot succeed makes the whole proposal fail AFTER the parameter change was executed
+		gov := authtypes.NewModuleAddress("gov")
+		params := n.App.EvmKeeper.GetParams(n.Ctx())
+		msgs := []sdk.Msg{}
+		if t["fail"] == true {
+			params.EnableCreate = false
+			msgs = append(msgs, &evmtypes.MsgUpdateParams{Authority: gov.String(), Params: params},
+				banktypes.NewMsgSend(gov, from.Addr, sdk.NewCoins(coin("900000000000000000000000000000"))))
+		} else {
+			params.AllowUnprotectedTxs = !params.AllowUnprotectedTxs
+			msgs = append(msgs, &evmtypes.MsgUpdateParams{Authority: gov.String(), Params: params})
+		}
+		msg, err := govv1.NewMsgSubmitProposal(msgs, sdk.NewCoins(coin("5000")), from.Addr.String(), "", "t", "s")
+		if err != nil {
+			return nil, err
+		}
+		return cosmos(800000, msg)
 	case "bad_nonce":
 		// a transaction that the ante handler rejects (stale sequence): exercises the failure path
 		acc := n.App.AccountKeeper.GetAccount(n.Ctx(), from.Addr)
@@ -388,6 +432,11 @@ func chainMain(args []string) error {
 	defer tw.Close()
 
 	if *noise {
+		// node-local configuration differs from the generating replica's
+		NodeLocal["evm.max-tx-gas-wanted"] = uint64(50000)
+		NodeLocal["evm.tracer"] = ""
+		NodeLocal["iavl-cache-size"] = 10
+		NodeLocal["inter-block-cache"] = false
 		runtime.GOMAXPROCS(3)
 		for i := 0; i < 2; i++ {
 			_ = openApp(dbm.NewMemDB())
@@ -549,10 +598,21 @@ func chainMain(args []string) error {
 					detail += fmt.Sprint(" ethcode=", r.Code)
 				}
 			case "query":
-				for _, p := range []string{"/cosmos.bank.v1beta1.Query/TotalSupply", "/haqq.ucdao.v1.Query/TotalBalance", "/ethermint.evm.v1.Query/Params", "/ethermint.feemarket.v1.Query/BaseFee"} {
-					r := n.App.Query(abci.RequestQuery{Path: p, Height: n.Height})
-					detail += fmt.Sprint(r.Code, ",")
+				// every query of the Haqq modules, on the latest and on the previous height
+				reqs := n.haqqQueries()
+				okq := 0
+				for _, k := range sortedKeys(reqs) {
+					for _, h := range []int64{0, n.Height - 1} {
+						if h < 0 {
+							continue
+						}
+						if r := n.App.Query(abci.RequestQuery{Path: reqs[k].path, Data: reqs[k].data, Height: h}); r.Code == 0 {
+							okq++
+						}
+					}
 				}
+				r := n.App.Query(abci.RequestQuery{Path: "/cosmos.bank.v1beta1.Query/TotalSupply", Height: n.Height})
+				detail = fmt.Sprint("queries=", len(reqs), " ok=", okq, " supply=", r.Code)
 			case "simulate":
 				k := w.Accts[4%len(w.Accts)]
 				cctx := n.App.BaseApp.NewContext(true, n.Header)
